@@ -103,10 +103,26 @@ def run(prop, spec, tier, seed, scratch, t0):
         if not okc:
             broken.append({"kind": "audit", "name": "leanchecker rejected the compiled theorems", "detail": outc[-800:]})
 
+    # 3b. source tie of the hand-modelled parts: a function that is no longer what the model was
+    # validated against gets the deepest comparison available (thorough stream sizes) in every tier
+    from . import sourcetie
+    try:
+        tie = sourcetie.status()
+    except Exception as e:
+        tie = {"functions": 0, "changed": [], "added": [], "removed": [], "differs": True, "error": repr(e)}
+    tie["relevant"] = sourcetie.relevant(prop, tie["changed"] + tie["added"] + tie["removed"]) if tie["differs"] else []
+    escalated = bool(tie["relevant"] or tie.get("error")) and not thorough
+    tie["escalated_to_thorough_streams"] = escalated
+    if escalated:
+        print(f"source tie: {len(tie['relevant'])} hand-modelled function(s) differ from the validated baseline "
+              f"({', '.join(tie['relevant'][:4])}{' …' if len(tie['relevant']) > 4 else ''}): streams run at thorough size",
+              file=sys.stderr)
+
     # 4. streams
     rng = random.Random((seed << 8) ^ hash(prop) % 251)
     rng = random.Random(f"{seed}:{prop}")
-    ctx = props.Ctx(prop=prop, rng=rng, thorough=thorough, seed=seed, scratch=scratch, broken=broken)
+    ctx = props.Ctx(prop=prop, rng=rng, thorough=thorough or escalated, seed=seed, scratch=scratch, broken=broken,
+                    scale=1 if (escalated and not thorough) else 0)
     from .streams import EnoughFailures
     try:
         res = spec["run"](ctx)
@@ -172,6 +188,7 @@ def run(prop, spec, tier, seed, scratch, t0):
             "input_distribution": dict(res.stats),
             "exhaustive": bool(spec.get("exhaustive", False)),
             "generated_parts": gen_status,
+            "source_tie": tie,
             "known_findings_seen": sorted(known_hits),
         },
         "assumptions": spec.get("assumptions", []),
